@@ -156,6 +156,8 @@ func Active() bool { return S != nil }
 func Aborting() bool { return S != nil && S.aborting }
 
 // Run executes body as thread 0 under the scheduler.
+//
+//go:norace
 func Run(cfg Config, body func()) *Result {
 	if S != nil {
 		panic("vsched: nested Run")
